@@ -543,7 +543,11 @@ var c16Corners = []string{
 	"module m { interface I { void f(int a int b); }; };", "module m { interface I { unsigned int f(unsigned short a, out unsigned byte b); }; };",
 	"module m { key[S, a, b]; };", "module m { key[S]; };", "module m { key[S, a,]; };", "module m { key[S, a", "module m { key",
 	"#include \"a.tars\"", "#include", "#include x", "#includes \"a\"", "#inc", "# include \"a\"", "#include \"a.tars\" module m { };", "module m { }; #include \"in.tars\"",
-	"module a { struct S { 0 require int x; }; }; module b { struct T { 0 require a::S s; }; };", "module a { }; module a { };", "module a { }; module b { struct T { 0 require Nope s; }; };",
+	"module a { struct S { 0 require int x; }; }; module b { struct T { 0 require a::S s; }; };",
+	"module a { struct S { 0 require Nope x; }; }; module b { };", "module a { struct S { 0 require b::T x; }; }; module b { struct T { 0 require int y; }; };",
+	"module a { enum E { X }; struct S { 0 optional E e = NOPE; }; }; module b { }; module c { };", "module a { interface I { Nope f(); }; }; module b { };",
+	"module a { struct S { 0 require vector<map<int, Nope>> x; }; }; module b { struct T { 0 require a::S s; }; }; module c { struct U { 0 require b::T t; }; };",
+	"module a { }; module b { }; module c { struct U { 0 require Nope t; }; };", "module a { }; module a { };", "module a { }; module b { struct T { 0 require Nope s; }; };",
 	"module a { }; module b { enum E {", "module m { }; module",
 	"/* unterminated", "/* ok */", "/* almost *", "/* star then nul *\x00 module", "// only a comment", "// c\nmodule m { };", "/ x", "/", "module m /* c */ { } /* d */ ;",
 	"module m { }; \x00 garbage {{{{", "module \x00", "\"str", "\"a\x00b\"", "module \"m\" { };",
@@ -677,6 +681,10 @@ func c16GenFileCases(tier string, rng *rand.Rand) []c16Case {
 		cs = append(cs, c16FileCase("inc-dep-truncated", useText, map[string]string{dep.Name + ".tars": c16Join(dt[:rng.Intn(len(dt)+1)], rng, 0)}))
 		cs = append(cs, c16FileCase("inc-circular", useText, map[string]string{dep.Name + ".tars": `#include "in.tars" ` + depText}))
 		cs = append(cs, c16FileCase("inc-use-mutated", c16Join(c16Mutate(use.toks(), rng, 1+rng.Intn(2)), rng, 0), files))
+		// several modules in the main file, the first one using the included file's types
+		second := c16GenModule(rng, fmt.Sprintf("Sec%d", p), c16GenOpt{Small: true, IdBase: 200}, false)
+		cs = append(cs, c16FileCase("inc-multi", useText+"\n"+c16Join(second.toks(), rng, 0), files))
+		cs = append(cs, c16FileCase("inc-multi-missing-type", strings.Replace(useText, dep.Name+"::", "Nowhere::", 1)+"\n"+c16Join(second.toks(), rng, 0), files))
 		// a third file between the two
 		mid := fmt.Sprintf("#include \"%s.tars\" module Mid%d { struct Box { 0 require %s::%s inner; }; };", dep.Name, p, dep.Name, c16FirstType(dep))
 		if c16FirstType(dep) != "" {
